@@ -5,6 +5,10 @@ HERE = os.path.dirname(os.path.dirname(os.path.abspath(__file__)))
 
 # id -> (technique, level text, level note, design section)
 CHECKS = {
+ "C18": ("exhaustive enumeration of A2ML definitions from a grammar-based generator (programs) x bounded-exhaustive conforming instances x all single-token deviations x supply modes, judged by an independent reference matcher (strict and lenient) and payload-token equality",
+         "Programs: every A2ML definition the generator builds to nesting depth 2 (thorough 3) from 14 leaf types (all 10 scalars, char[n], enums with and without values, 1- and 2-dimensional arrays), structs, taggedstruct / taggedunion items in the forms tag, tag member, block, repeated, repeated block, tag (member)*, top-level (member)*, plus variants where the top-level or the first nested enum / struct / taggedstruct / taggedunion is declared by name and referenced later. Per definition: all instances of the enumerator (cap 8 / 24) supplied in-file, built-in or both; for the first instances every single-token deletion, duplication, replacement by another lexical class and appended token that keeps /begin-/end balanced. Strict matcher accepts => ifdata_valid and payload tokens preserved (integer notation kept, floats at type precision); lenient matcher rejects => load succeeds, invalid, payload preserved; in between don't care; reload equal; ifdata_cleanup() keeps exactly the valid blocks.",
+         "definitions are restricted to LL(1)-unambiguous ones (distinct tags per depth); the library's documented leniencies in non-strict mode (identifier read as string, over-long string, duplicate non-repeatable tag, empty IF_DATA) are don't-care",
+         "DESIGN.md 5/C18"),
  "C16": ("exhaustive enumeration of file-tree splittings (every contiguous run of children of every node moved to include files: single, nested, sibling, nested+sibling) x directory x name syntax x separator, executed against real files on tmpfs with a lockstep against the flattened text; fault trees in a child process",
          "For a 4-element module, a 3-module project and two IF_DATA-bearing modules: every contiguous run of children of every node moved into an include file, optionally with a nested include, a sibling include or both, x directory of the file {., sub/, sub/sub2/} x directory of the nested file {., inner/} x quoted / bare names x '/' and '\\' separators; the A2ML block including part of its definition; fault cases (missing, a directory, empty, no name, self-inclusion, mutual inclusion, A2ML self-inclusion) in a child process with a timeout. Oracle: load(main) equals load_from_string(flattened) including the number of diagnostics; write next to the tree and reload gives an equal model with one /include per directly included file; merge_includes() gives include-free text that reloads equal; faults return an error naming the include in a live process.",
          "the working directory is an empty directory so that no name resolves by accident; absolute include paths and symlinks are not explored",
